@@ -289,6 +289,7 @@ func c04DestWins(w *World, r *Report) {
 	}
 	// (b) inside coalesceTablesFullKey: recursion keeps the slots; a source value is stored only where dst lacks the key
 	c04MergeBody(w, r, ctfk, 1, 2, "coalesceTablesFullKey")
+	c04ReturnsDest(w, r, ctfk)
 	// (c) MergeMaps(a, b): b wins — out[k] = v from b unconditionally at the end; recursion (out/a side, b side)
 	for _, c := range callInstrs(mm) {
 		if f, _ := calleeOf(c.Common()); f != nil && origin(f) == mm {
@@ -678,5 +679,45 @@ func unwrapAssert(v ssa.Value) ssa.Value {
 		default:
 			return v
 		}
+	}
+}
+
+// c04ReturnsDest: the merge works in place (its recursive calls ignore the result): it returns the
+// destination itself, and something else only where the destination is nil.
+func c04ReturnsDest(w *World, r *Report, ctfk *ssa.Function) {
+	if len(ctfk.Params) >= 3 {
+		g := FullGraph(ctfk)
+		dstP := ssa.Value(ctfk.Params[1])
+		nilEdges, _ := nilTestEdges(dstP)
+		bad := ""
+		for _, b := range ctfk.Blocks {
+			if len(b.Instrs) == 0 || !g.Reachable()[b] {
+				continue
+			}
+			ret, ok := b.Instrs[len(b.Instrs)-1].(*ssa.Return)
+			if !ok || len(ret.Results) == 0 {
+				continue
+			}
+			var judge func(v ssa.Value, at IPos, d int)
+			judge = func(v ssa.Value, at IPos, d int) {
+				if v == dstP {
+					return
+				}
+				if phi, isPhi := v.(*ssa.Phi); isPhi && d < 3 {
+					for i, e := range phi.Edges {
+						p := phi.Block().Preds[i]
+						if len(p.Instrs) > 0 && g.Reachable()[p] {
+							judge(e, IPos{p, len(p.Instrs) - 1}, d+1)
+						}
+					}
+					return
+				}
+				if ex, _ := g.PathExists(entryPos(ctfk), at, Avoid{}.withEdges(nilEdges...)); ex || len(nilEdges) == 0 {
+					bad = w.InstrPos(ret)
+				}
+			}
+			judge(ret.Results[0], posOf(ret), 0)
+		}
+		r.Check(bad == "", "C04/DEST-WINS", "coalesceTablesFullKey/returns-destination", w.Pos(ctfk.Pos()), "the in-place merge returns its destination (another table only where the destination is nil)", "the merge can return a table other than its destination although the destination is not nil (at "+bad+"): the nested call sites ignore the result, so keys of the lower-precedence table are lost")
 	}
 }
